@@ -60,3 +60,19 @@ PROPS["C09"] = {
         H("verif_c09::proofs::packets_reject_out_of_range_ordinals", desc="decoders reject enum ordinals outside their table", bounds="all i32 outside each table"),
     ],
 }
+
+
+PROPS["C05"] = {
+    "level_text": "Bounded model checking of the real CipherStream::poll_write / poll_read / set_encryption: for every acceptance/chunking schedule of up to 4 transport calls over 3 bytes (accept any prefix incl. none, Pending) the bytes accepted by the transport equal one continuous stream encryption of the bytes reported written, and surfaced bytes the continuous decryption; pre-switch bytes untouched. That create_ciphers yields 8-bit CFB over aes::Aes128 with key = IV = secret is decided for all secrets with the real cfb8/aes crates, the AES block function stubbed by a model block cipher, against a reference CFB8 written on the raw block-cipher API.",
+    "level_note": "Trusted: Kani/CBMC; the schedule harnesses use a model cipher with CFB8's shape (16-bit symbolic state) because a symbolic AES key schedule does not finish; the AES block function itself is trusted (stubbed: symbolic AES does not finish); tokio ReadBuf is the synchronous model. Outside the bound: more than 3 bytes / 4 transport calls per harness, write errors from the transport.",
+    "assumptions": ["model cipher has the CFB8 shape: ks byte = f(state), state' = g(state, ciphertext byte)", "transport never returns an error (Pending / partial / full accept only)", "aes::soft::fixslice::{aes128_key_schedule, aes128_encrypt} stubbed by a model block cipher in cfb8_mode_key_is_iv"],
+    "explanation": "schedule quantifier decided on the real poll functions with a symbolic acceptance script",
+    "harnesses": [
+        H("verif_c05::proofs::write_any_schedule", pkg="passage-protocol", desc="wire == Enc(one stream) of bytes reported written, for every accept/Pending script", bounds="3 plaintext bytes, 4 poll_write calls, script values 0..=255 (255 = Pending), 16-bit cipher state", timeout_s=1500, mem_gb=20),
+        H("verif_c05::proofs::read_any_schedule", pkg="passage-protocol", desc="surfaced == Dec(one stream) of bytes produced; pre-filled buffer prefix untouched", bounds="3 ciphertext bytes, 4 poll_read calls, 0 or 2 bytes already in ReadBuf", timeout_s=1500, mem_gb=20),
+        H("verif_c05::proofs::switch_mid_connection", pkg="passage-protocol", desc="bytes before set_encryption untouched, stream starts at the switch", bounds="4 bytes, switch point 0..=4"),
+        H("verif_c05::proofs::cfb8_mode_key_is_iv", pkg="passage-protocol", tier="thorough", desc="create_ciphers + real cfb8 crate == reference 8-bit CFB on the aes::Aes128 block function with key = IV = secret; decryptor inverts", bounds="all 16-byte secrets, 3 symbolic plaintext bytes; AES block function replaced by a model block cipher (stub)", timeout_s=5400, mem_gb=40, no_native_replay="AES block function is stubbed by a model cipher under Kani"),
+        H("verif_c05::proofs::create_ciphers_rejects_wrong_length", pkg="passage-protocol", desc="secret length != 16 refused", bounds="lengths {0,1,15,17,32}"),
+    ],
+}
+NOT_APPLICABLE.pop("C05", None)
